@@ -8,7 +8,7 @@
    (one row per cell, m or p columns) hold by typing of the generated definitions.
    sigma is the estimators' noise parameter (0 by default): jitter' = max(sigma^2, jitter). *)
 From mathcomp Require Import all_ssreflect all_fingroup all_algebra.
-From MellonV Require Import MatOps MxInst MxPsd MatGen CondThm FactorThm.
+From MellonV Require Import MatOps MxInst MxPsd MxChol MatGen CondThm FactorThm.
 Set Implicit Arguments.
 Unset Strict Implicit.
 Import Order.TTheory GRing.Theory Num.Theory.
@@ -50,13 +50,14 @@ Qed.
 (* full Nystroem: L L^T = V_p S_p V_p^T (kept eigenpairs of K + j' I); the gap is the
    discarded part  Vd Sd Vd^T with Sd >= 0, hence positive semi-definite *)
 Theorem C04_full_nystroem_LLt n p (K : 'M[F]_n) (s j : F) (rank : nat) :
-  sym K -> psd K -> 0 < j ->
+  sym K -> psd K -> 0 < j -> (p <= n)%N ->
   let W := K + (Num.max (s ^+ 2) j)%:M in
   let L := full_decomposition_low_rank p K rank s j in
   L *m L^T = eigV p W *m diagv (eigS p W) *m (eigV p W)^T
   /\ exists q, exists sd : 'cV[F]_q, exists Vd : 'M[F]_(n, q),
-       [/\ W - L *m L^T = Vd *m diagv sd *m Vd^T, (forall i, 0 <= sd i 0) & psd (W - L *m L^T)].
-Proof. by move=> sK pK j0 W L; apply: nystroem_LLt. Qed.
+       [/\ (q + p = n)%N, W - L *m L^T = Vd *m diagv sd *m Vd^T, (forall i, 0 <= sd i 0),
+           psd (W - L *m L^T) & Vd^T *m Vd = 1%:M].
+Proof. by move=> sK pK j0 pn W L; apply: nystroem_LLt. Qed.
 
 (* improved Nystroem: L L^T = Q [M]_p Q^T with M = R W^-1-part R^T, Q M Q^T = K_xu (v S^-1 v^T) K_ux,
    and Q M Q^T - L L^T is positive semi-definite *)
@@ -67,11 +68,12 @@ Theorem C04_modified_LLt n m kq p p1 (Kxu : 'M[F]_(n, m)) (Kuu : 'M[F]_m) (s j :
   let Winv := eigV p W *m diagv (\col_i (eigS p W i 0)^-1) *m (eigV p W)^T in
   let Mi := R *m eigV p W *m diagv (\col_i (eigS p W i 0)^-1) *m (R *m eigV p W)^T in
   let L := modified_low_rank kq p p1 Kxu Kuu rank s j in
+  (p <= m)%N -> (p1 <= \rank Mi)%N ->      (* at most #(positive eigenvalues) pairs are kept: C10 *)
   [/\ L *m L^T = Q *m (eigV p1 Mi *m diagv (eigS p1 Mi) *m (eigV p1 Mi)^T) *m Q^T,
       Mi = R *m Winv *m R^T,
       Q *m Mi *m Q^T = Kxu *m Winv *m Kxu^T
     & psd (Q *m Mi *m Q^T - L *m L^T)].
-Proof. by move=> sK pK j0 W Q R Winv Mi L; apply: modified_LLt. Qed.
+Proof. by move=> sK pK j0 W Q R Winv Mi L pm p1r; apply: modified_LLt. Qed.
 
 (* never above K: with the joint Gram matrix of inducing points and cells positive
    semi-definite (kernel_psd hypothesis), K_xx - K_xu (K_uu + j' I)^-1 K_ux >= 0,
@@ -100,9 +102,15 @@ Qed.
 
 End C04.
 
+(* non-vacuity of the Cholesky contract assumed above: lib/MxChol.v constructs the factor of every
+   symmetric positive definite matrix over any real closed field *)
+Theorem C04_chol_contract_satisfiable (F : rcfType) : chol_contract (@cholm F).
+Proof. exact: chol_contract_cholm. Qed.
+
 Print Assumptions C04_full_LLt.
 Print Assumptions C04_standard_LLt.
 Print Assumptions C04_full_nystroem_LLt.
 Print Assumptions C04_modified_LLt.
 Print Assumptions C04_never_above_K_standard.
 Print Assumptions C04_never_above_K_full.
+Print Assumptions C04_chol_contract_satisfiable.
